@@ -23,13 +23,15 @@ func init() {
 			"(R07.2) in computePkgCache every dependency whose entry is missing is recomputed recursively (or skipped for the justified no-reflect case), merged with CopyFrom, and the computed entry is stored with PutBytes under the package's own GarbleActionID before a success return; " +
 			"(R07.3) PatchLinker hands out the cached linker only under checkVersion && fileExists, everything else rebuilds and re-stamps; " +
 			"(R07.4) that reuse guard must depend on the content (size or digest) of the cached linker, not only on its existence; " +
-			"(R07.5) the go-internal cache version /repo resolves makes GetFile fail on a data file whose size differs from the index entry. " +
+			"(R07.5) the go-internal cache version /repo resolves makes GetFile fail on a data file whose size differs from the index entry; " +
+			"(R07.6) garble never decides on the index-only (*cache.Cache).Get. " +
 			"Does not decide that a rebuilt binary equals the cold one, nor anything about GOCACHE.",
 		perConfig: checkC07,
 	})
 }
 
 func checkC07(c *Ctx) {
+	w := c.W
 	ruleGetFileMiss(c, "R07.1")
 
 	ruleDepCacheRecompute(c)
@@ -40,6 +42,31 @@ func checkC07(c *Ctx) {
 	// R07.5 ---------------------------------------------------------------
 	c.Rule("R07.5", "go-internal Cache.GetFile fails when the data file's size differs from the index entry", 1)
 	checkCacheLibrary(c, "R07.5")
+
+	// R07.6 ---------------------------------------------------------------
+	// (*cache.Cache).Get reads the index entry only: it succeeds when the data file is gone
+	// or truncated. A decision to skip recomputing or re-storing an entry that is taken on
+	// Get never repairs a damaged entry. garble must look entries up with GetFile/GetBytes.
+	c.Rule("R07.6", "cache entries are only ever looked up with a call that verifies the data file (GetFile/GetBytes), never with the index-only Get", 1)
+	getName := "(*github.com/rogpeppe/go-internal/cache.Cache).Get"
+	hasGet := false // positive control: the method this rule looks for exists under that name
+	if p := w.All["github.com/rogpeppe/go-internal/cache"]; p != nil {
+		if t, ok := p.Types.Scope().Lookup("Cache").(*types.TypeName); ok {
+			if m, _, _ := types.LookupFieldOrMethod(types.NewPointer(t.Type()), true, p.Types, "Get"); m != nil {
+				hasGet = true
+			}
+		}
+	}
+	if !hasGet {
+		c.Undecided("R07.6", "index-only cache look-ups", "", "(*cache.Cache).Get not found in go-internal: the rule's target moved")
+	} else {
+		var sites []string
+		for _, cs := range w.CallsTo(getName) {
+			sites = append(sites, w.FuncName(cs.Fn)+" at "+w.Pos(cs.Instr.Pos()))
+		}
+		c.Check(len(sites) == 0, "R07.6", "index-only cache look-ups", "", "none in garble",
+			"garble decides on (*cache.Cache).Get, which does not look at the data file: "+strings.Join(sites, "; ")+" — an entry whose data file is missing or truncated is taken as present and never rewritten")
+	}
 }
 
 // ruleDepCacheRecompute is R07.2. It is a necessary condition of three properties: a
